@@ -264,7 +264,13 @@ fn main_inner() -> Result<(), RunError> {
             }
         }
     } else {
-        match std::io::stdout().write_all(output.as_bytes()) {
+        let mut stdout = std::io::stdout();
+        // Flush explicitly: output that does not end in a newline stays in the
+        // buffer and a write error at exit would go unnoticed.
+        match stdout
+            .write_all(output.as_bytes())
+            .and_then(|()| stdout.flush())
+        {
             Ok(()) => {}
             Err(e) => {
                 eprintln!("failed to write to stdout: {e}");
